@@ -583,7 +583,7 @@ func indent(s string) string {
 }
 
 var c01literals = []string{"0", "1", "-1", "2", "3", "63", "64", "65", "-64", "9223372036854775807", "-9223372036854775808", "-9223372036854775807",
-	"0u", "1u", "63u", "64u", "18446744073709551615u", "0.0", "1.5", "-0.0", "1e308", "5e-324", "-2.5",
+	"0u", "1u", "63u", "64u", "18446744073709551615u", "0.0", "1.5", "-0.0", "1e308", "5e-324", "-2.5", "1e21", "0.00001",
 	"'a'", "'\\x00'", "\"\"", "\"a\"", "\"ab\"", "true", "false", "undefined"}
 
 var c01ops = []string{"+", "-", "*", "/", "%", "&", "|", "^", "&^", "<<", ">>", "<", "<=", ">", ">=", "==", "!=", "&&", "||"}
@@ -664,6 +664,12 @@ func (m c01) Run(c *core.Ctx) {
 				q := &Program{Src: fmt.Sprintf("return (%s) %s (%s)\n", l, op, r), Tags: []string{"fold-single"}}
 				if m.check(c, q, nil, noGlobals, []int{1, 3, 100}) {
 					c.Nontrivial(q.Src)
+				}
+				// the same without parentheses: the operands reach the optimizer's literal x literal tables directly
+				// (a parenthesised literal is a different node kind and takes the evaluator path instead)
+				q3 := &Program{Src: fmt.Sprintf("return %s %s %s\n", l, op, r), Tags: []string{"fold-single-bare"}}
+				if m.check(c, q3, nil, noGlobals, []int{1, 100}) {
+					c.Nontrivial(q3.Src)
 				}
 				c.Count("fold_table_cases")
 			}
